@@ -1,4 +1,4 @@
-from asyncio import gather
+from asyncio import Task, ensure_future, gather
 from collections.abc import Iterable
 from contextlib import AbstractAsyncContextManager
 from itertools import chain
@@ -45,10 +45,32 @@ class Disposables:
                 return multiple
 
     async def __aenter__(self) -> Iterable[State]:
-        results: list[Iterable[State] | BaseException] = await gather(
-            *[self._initialize(disposable) for disposable in self._disposables],
-            return_exceptions=True,
-        )
+        initializing: list[Task[Iterable[State]]] = [
+            ensure_future(self._initialize(disposable)) for disposable in self._disposables
+        ]
+        results: list[Iterable[State] | BaseException]
+        try:
+            results = await gather(
+                *initializing,
+                return_exceptions=True,
+            )
+
+        except BaseException as exc:
+            # cancelled while initializing, the scope won't be entered
+            # wait for interrupted ones and dispose what was already initialized
+            await gather(
+                *[
+                    disposable.__aexit__(type(exc), exc, exc.__traceback__)
+                    for disposable, res in zip(
+                        self._disposables,
+                        await gather(*initializing, return_exceptions=True),
+                        strict=True,
+                    )
+                    if not isinstance(res, BaseException)
+                ],
+                return_exceptions=True,
+            )
+            raise
 
         exceptions: list[BaseException] = [res for res in results if isinstance(res, BaseException)]
         if exceptions:
